@@ -305,6 +305,11 @@ def delay_families(kind="discrete"):
         out.append(("G4-off-grid-delay-and-spread", dict(),
                     model([pop, tgt], dict(two, t1=dict(ops=["tg"]), t2=dict(ops=["tg"], over={"tg/tau": 2.0})),
                           [edge("p1/op/r", "t1/tg/u", 1.0, 0.127, 0.044), edge("p2/op/r", "t2/tg/u", 1.0, 0.283, 0.117)])))
+        # spread larger than the delay: (d/s)^2 rounds to 0 - the kernel still has to have mean delay d (one stage of rate 1/d)
+        out.append(("G5-spread-larger-than-delay", dict(),
+                    model([pop, tgt], dict(two, t1=dict(ops=["tg"]), t2=dict(ops=["tg"], over={"tg/tau": 2.0})),
+                          [edge("p1/op/r", "t1/tg/u", 1.0, 0.3, 0.5), edge("p2/op/r", "t2/tg/u", 1.5, 0.2, 0.3),
+                           edge("p2/op/r", "p1/op/r_in", 0.3, 0.4, 0.2)])))
     return out
 
 
@@ -588,7 +593,7 @@ def c16_cases(seed=0):
               conns=[dict(src="a/op/r", tgt="b/tg/u", W=W(3, 3), d=0.3), dict(src="a/op/r", tgt="b/tg/w", W=W(3, 3)),
                      dict(src="b/tg/v", tgt="a/op/r_in", W=0.4)])
     out.append(("P5b-delayed-and-undelayed-from-one-source", dict(delay=0.3, dt=0.1), ps))
-    for d, s_ in ((0.3, 0.1), (0.5, 0.3), (0.4, 0.2)):
+    for d, s_ in ((0.3, 0.1), (0.5, 0.3), (0.4, 0.2), (0.3, 0.5)):
         ps = dict(ops=ops, pops={"a": dict(ops=["op"], n=3, params={"op/tau": het(3, 1.0, 3.0), "op/r": het(3, -0.5, 0.5)})},
                   conns=[dict(src="a/op/r", tgt="a/op/r_in", W=W(3, 3), d=d, s=s_)])
         out.append((f"P6-gamma-delay-{d}-{s_}", dict(delay=d, spread=s_, dt=0.01), ps))
